@@ -1,13 +1,14 @@
 (* Single entry point of the extracted model runner: (tag arg) -> result. *)
 From Coq Require Import List NArith ZArith Bool String.
 Import ListNotations.
-From Indi Require Import Base.Sx Msg.Equality Router.Run.
+From Indi Require Import Base.Sx Msg.Equality Router.Run Driver.SwitchRun.
 
 Definition dispatch (x : sx) : sx :=
   match x with
   | SL [SA t; arg] =>
       if str_eqb t (s2l "eq") then run_eq arg
       else if str_eqb t (s2l "router") then run_router arg
+      else if str_eqb t (s2l "switch") then run_switch arg
       else tag "UNKNOWN-ENTRY"
   | _ => bad_input
   end.
